@@ -198,7 +198,7 @@ class Impl:
                 plan["open_err"]["%s/io" % base] = errno.ESRCH
         return plan
 
-    def call(self, what, plan, dies_at=None, gone_before=False, listdir_err=None):
+    def call(self, what, plan, dies_at=None, gone_before=False, listdir_err=None, gone_after=False):
         """Run one front-end method with the OS entry points patched according to `plan`."""
         ps = self.ps
         reset_psutil_state(ps)
@@ -239,6 +239,14 @@ class Impl:
                 r = sorted(r, key=lambda n: order[n])
             return r
 
+        real_stat = os.stat
+
+        def fake_stat(path, *a, **kw):
+            # `_raise_if_not_alive` looks at /proc/<pid>: the process is reaped right before
+            if gone_after and path == base:
+                shutil.rmtree(base, ignore_errors=True)
+            return real_stat(path, *a, **kw)
+
         def fake_open(file, *a, **kw):
             if isinstance(file, str) and file in plan["open_err"] and os.path.lexists(base):
                 en = plan["open_err"][file]
@@ -247,7 +255,8 @@ class Impl:
 
         self.common.open = fake_open
         try:
-            with patched(os, "readlink", fake_readlink), patched(os, "listdir", fake_listdir):
+            with patched(os, "readlink", fake_readlink), patched(os, "listdir", fake_listdir), \
+                    patched(os, "stat", fake_stat):
                 try:
                     if what == "open_files":
                         r = proc.open_files()
@@ -381,7 +390,7 @@ def eval_raw(impl, case, line):
         plan = impl.build_proc(entries)
         le = case.get("listdir", "ok")
         obs[what] = impl.call(what, plan, listdir_err=None if le == "ok" else getattr(errno, le),
-                              dies_at=(len(entries) if case.get("gone_after") else None))
+                              gone_after=bool(case.get("gone_after")) and what == "open_files")
     return obs
 
 
